@@ -60,7 +60,7 @@ manifest = {
     "notes": "All checks rebuild /repo's working tree through the harness path dependency. exit 0 = held, 1 = VIOLATION line printed, 2 = infrastructure/inconclusive. Known findings: /verif/known_findings.json.",
     "not_applicable": na,
 }
-FUZZ_SERVES = ["C02", "C04", "C05", "C09", "C11", "C13", "C14", "C15", "C17", "C18", "C19", "C20"]
+FUZZ_SERVES = ["C02", "C04", "C05", "C09", "C11", "C12", "C13", "C14", "C15", "C17", "C18", "C19", "C20"]
 manifest["engines"].append({"name": "cargo-fuzz", "path": "/verif/fuzz", "serves_properties": FUZZ_SERVES,
                             "kind_free_text": "libFuzzer + AddressSanitizer targets (cargo +nightly fuzz); bytes are decoded structurally into the property's case type (harness/src/bytedec.rs), normalised into the input domain (fuzzdec.rs) and judged by the same oracle as the proptest driver; second engine of the thorough tier (tools/fuzz_tier.sh), fixed -runs and -seed"})
 manifest["engines"].append({"name": "asan-sigprobe", "path": "/verif/asan", "serves_properties": ["C18"],
